@@ -1,16 +1,9 @@
 (* C19 -- invalid or contradictory configuration is rejected, valid configuration is accepted, no option is silently ignored.
    Statements only; the parser model is Gen/Attr.v, the reference validator (written from the documented option tables)
-   Gen/AttrSpec.v, proofs Gen/AttrThm.v, witnesses Gen/AttrWitness.v.
+   Gen/AttrSpec.v, proofs Gen/AttrThm.v, concrete instances Gen/AttrWitness.v.
    fexists / fcount (does a path exist; how many macros of the file carry `file` markers) are universally quantified.
-
-   Full-strength statements that are FALSE of the faithful model (kept here for the record; each has a `_refuted` lemma with a
-   concrete witness that is replayed on the real macro on every run):
-     forall mc l, parse_args mc l <> Panic                                   -- name = "1x" panics in format_ident!
-     forall l, is_ok (parse_args Actor l) = valid_actor l                    -- Debug(foo), include(inc = 1) accepted
-     forall l, is_ok (parse_args Family l) = valid_family l                  -- Mutex = 1 accepted
-     forall l, is_ok (parse_example l) = valid_example l                     -- example(bogus), main = 5 accepted
-     "nothing silently ignored" inside edit(..)                              -- edit(script()), edit(), imp(), def(x)
-     "every documented combination accepted"                                 -- family edit(def, imp), member edit(script(..)) rejected *)
+   All statements are unguarded: the former known-finding classes (name-not-ident, leaf-not-bare, edit-empty-list,
+   example-unknown-option, family-edit-form) were repaired in the crate and are rule lemmas / instances now. *)
 From Coq Require Import List String Bool.
 Import ListNotations.
 From IT Require Import Gen.Attr Gen.AttrSpec Gen.AttrThm Gen.AttrWitness.
@@ -20,35 +13,40 @@ Section C19.
 Variable fexists : string -> bool.
 Variable fcount : string -> fcnt.
 
-(* ---- accept <-> valid (outside the known-finding class leaf-not-bare) ---- *)
-Theorem C19_actor_accept_iff_valid : forall l, existsb k_leaf_item l = false ->
+(* ---- accept <-> valid ---- *)
+Theorem C19_actor_accept_iff_valid : forall l,
   is_ok (parse_args fexists fcount Actor l) = valid_actor fexists fcount l.
 Proof. exact (actor_accept_iff_valid fexists fcount). Qed.
 
-Theorem C19_family_accept_iff_valid : forall l, k_leaf l = false ->
+Theorem C19_family_accept_iff_valid : forall l,
   is_ok (parse_args fexists fcount Family l) = valid_family fexists fcount l.
 Proof. exact (family_accept_iff_valid fexists fcount). Qed.
 
-Theorem C19_example_accept_iff_valid : forall l, k_example l = false ->
+Theorem C19_example_accept_iff_valid : forall l,
   is_ok (parse_example fexists l) = valid_example fexists l.
 Proof. exact (example_accept_iff_valid fexists). Qed.
 
-(* ---- a rejected configuration gets a diagnostic, never a panic (outside the known-finding class name-not-ident) ---- *)
-Theorem C19_never_panics : forall mc l, k_name l = false -> parse_args fexists fcount mc l <> Panic.
+(* ---- a rejected configuration gets a diagnostic, never a panic ---- *)
+Theorem C19_never_panics : forall mc l, parse_args fexists fcount mc l <> Panic.
 Proof. exact (parse_args_never_panics fexists fcount). Qed.
 
-Theorem C19_invalid_gets_diagnostic : forall l, existsb k_leaf_item l = false -> k_name l = false -> valid_actor fexists fcount l = false ->
+Theorem C19_invalid_gets_diagnostic : forall l, valid_actor fexists fcount l = false ->
   exists d, parse_args fexists fcount Actor l = Diag d.
 Proof.
-  intros l K N V. apply not_ok_diag. rewrite (actor_accept_iff_valid fexists fcount l K). exact V.
-  exact (parse_args_never_panics fexists fcount Actor l N).
+  intros l V. apply not_ok_diag. rewrite (actor_accept_iff_valid fexists fcount l). exact V.
+  exact (parse_args_never_panics fexists fcount Actor l).
 Qed.
 
-Theorem C19_family_invalid_gets_diagnostic : forall l, k_leaf l = false -> k_name l = false -> valid_family fexists fcount l = false ->
+Theorem C19_family_invalid_gets_diagnostic : forall l, valid_family fexists fcount l = false ->
   exists d, parse_args fexists fcount Family l = Diag d.
 Proof.
-  intros l K N V. apply not_ok_diag. rewrite (family_accept_iff_valid fexists fcount l K). exact V.
-  exact (parse_args_never_panics fexists fcount Family l N).
+  intros l V. apply not_ok_diag. rewrite (family_accept_iff_valid fexists fcount l). exact V.
+  exact (parse_args_never_panics fexists fcount Family l).
+Qed.
+
+Theorem C19_example_invalid_gets_diagnostic : forall l, valid_example fexists l = false -> exists d, parse_example fexists l = Diag d.
+Proof.
+  intros l V. apply not_ok_diag. rewrite (example_accept_iff_valid fexists l). exact V. exact (example_never_panics fexists l).
 Qed.
 
 Theorem C19_example_never_panics : forall l, parse_example fexists l <> Panic.
@@ -115,43 +113,76 @@ Theorem C19_rule_family_duplicate_key : forall l, nodupb (filter not_actor_path 
 Proof. exact (family_rule_duplicate fexists fcount). Qed.
 
 (* unknown key, or a known key with the wrong value kind *)
-Theorem C19_rule_invalid_option : forall l m, existsb k_leaf_item l = false -> In m l -> item_valid fexists Actor m = false ->
+Theorem C19_rule_invalid_option : forall l m, In m l -> item_valid fexists Actor m = false ->
   is_ok (parse_args fexists fcount Actor l) = false.
 Proof. exact (actor_rule_invalid_item fexists fcount). Qed.
 
-Theorem C19_rule_unknown_key : forall l m, existsb k_leaf_item l = false -> In m l -> mkey m = KOther ->
+Theorem C19_rule_unknown_key : forall l m, In m l -> mkey m = KOther ->
   is_ok (parse_args fexists fcount Actor l) = false.
-Proof. intros l m K I U. exact (actor_rule_invalid_item fexists fcount l m K I (unknown_key_invalid fexists Actor m U)). Qed.
+Proof. intros l m I U. exact (actor_rule_invalid_item fexists fcount l m I (unknown_key_invalid fexists Actor m U)). Qed.
 
-Theorem C19_rule_include_exclude : forall l, existsb k_leaf_item l = false -> has_key KInclude l = true -> has_key KExclude l = true ->
+Theorem C19_rule_include_exclude : forall l, has_key KInclude l = true -> has_key KExclude l = true ->
   is_ok (parse_args fexists fcount Actor l) = false.
 Proof. exact (actor_rule_include_exclude fexists fcount). Qed.
 
-Theorem C19_rule_file_marker_needs_path : forall l, existsb k_leaf_item l = false -> markers Actor l = true -> has_key KFile l = false ->
+Theorem C19_rule_file_marker_needs_path : forall l, markers l = true -> has_key KFile l = false ->
   is_ok (parse_args fexists fcount Actor l) = false.
 Proof. exact (actor_rule_marker_needs_file fexists fcount). Qed.
 
-Theorem C19_rule_file_marker_one_macro : forall l m f, existsb k_leaf_item l = false -> markers Actor l = true ->
+Theorem C19_rule_file_marker_one_macro : forall l m f, markers l = true ->
   find_key KFile l = Some m -> v_str m = Some f -> fcount f <> FOne -> is_ok (parse_args fexists fcount Actor l) = false.
 Proof. exact (actor_rule_marker_one_macro fexists fcount). Qed.
 
-Theorem C19_rule_family_invalid_option : forall l m, k_leaf l = false -> In m l -> fam_item_valid fexists m = false ->
+Theorem C19_rule_family_invalid_option : forall l m, In m l -> fam_item_valid fexists m = false ->
   is_ok (parse_args fexists fcount Family l) = false.
 Proof. exact (family_rule_invalid_item fexists fcount). Qed.
 
-Theorem C19_rule_family_smol : forall l, k_leaf l = false -> fam_lib l = Smol -> is_ok (parse_args fexists fcount Family l) = false.
+Theorem C19_rule_family_smol : forall l, fam_lib l = Smol -> is_ok (parse_args fexists fcount Family l) = false.
 Proof. exact (family_rule_smol fexists fcount). Qed.
 
-Theorem C19_rule_family_without_members : forall l, k_leaf l = false -> members_of l = [] -> is_ok (parse_args fexists fcount Family l) = false.
+Theorem C19_rule_family_without_members : forall l, members_of l = [] -> is_ok (parse_args fexists fcount Family l) = false.
 Proof. exact (family_rule_no_members fexists fcount). Qed.
 
-Theorem C19_rule_member_without_first_name : forall l p ml, k_leaf l = false -> In (MList p ml) (members_of l) -> has_key KFirstName ml = false ->
+Theorem C19_rule_member_without_first_name : forall l p ml, In (MList p ml) (members_of l) -> has_key KFirstName ml = false ->
   is_ok (parse_args fexists fcount Family l) = false.
-Proof. intros l p ml K I H. exact (family_rule_member_invalid fexists fcount l (MList p ml) K I (member_needs_first_name fexists p ml H)). Qed.
+Proof. intros l p ml I H. exact (family_rule_member_invalid fexists fcount l (MList p ml) I (member_needs_first_name fexists p ml H)). Qed.
 
-Theorem C19_rule_family_file_marker_needs_path : forall l, k_leaf l = false -> fam_markers l = true -> has_key KFile l = false ->
+Theorem C19_rule_family_file_marker_needs_path : forall l, fam_markers l = true -> has_key KFile l = false ->
   is_ok (parse_args fexists fcount Family l) = false.
 Proof. exact (family_rule_marker_needs_file fexists fcount). Qed.
+
+(* former known-finding classes, now rules *)
+Theorem C19_rule_name_must_be_identifier : forall l m, In m l -> mkey m = KName -> v_name m = false ->
+  exists d, parse_args fexists fcount Actor l = Diag d.
+Proof.
+  intros l m I K V. apply not_ok_diag. exact (actor_rule_invalid_item fexists fcount l m I (name_not_ident_invalid fexists Actor m K V)).
+  exact (parse_args_never_panics fexists fcount Actor l).
+Qed.
+
+Theorem C19_rule_first_name_must_be_identifier : forall l p ml m, In (MList p ml) (members_of l) -> In m ml -> mkey m = KFirstName -> v_name m = false ->
+  exists d, parse_args fexists fcount Family l = Diag d.
+Proof.
+  intros l p ml m I J K V. apply not_ok_diag.
+  apply (family_rule_member_invalid fexists fcount l (MList p ml) I). apply (member_item_invalid fexists p ml m J). unfold item_valid. rewrite K. exact V.
+  exact (parse_args_never_panics fexists fcount Family l).
+Qed.
+
+Theorem C19_rule_Debug_word_only : forall l m, In m l -> mkey m = KDebug -> v_flag m = false -> is_ok (parse_args fexists fcount Actor l) = false.
+Proof. intros l m I K V. exact (actor_rule_invalid_item fexists fcount l m I (word_only_invalid fexists Actor m K V)). Qed.
+
+Theorem C19_rule_filter_names_words_only : forall l m, In m l -> (mkey m = KInclude \/ mkey m = KExclude) -> v_filter m = false ->
+  is_ok (parse_args fexists fcount Actor l) = false.
+Proof. intros l m I K V. exact (actor_rule_invalid_item fexists fcount l m I (filter_names_words_only fexists Actor m K V)). Qed.
+
+Theorem C19_rule_lock_word_only : forall l m, In m l -> (mkey m = KMutex \/ mkey m = KRwLock) -> v_flag m = false ->
+  is_ok (parse_args fexists fcount Family l) = false.
+Proof. intros l m I K V. exact (family_rule_invalid_item fexists fcount l m I (lock_word_only fexists m K V)). Qed.
+
+Theorem C19_rule_example_invalid_option : forall l m, In m l -> ex_item_valid fexists m = false -> is_ok (parse_example fexists l) = false.
+Proof. exact (example_rule_invalid_item fexists). Qed.
+
+Theorem C19_rule_example_unknown_option : forall l m, In m l -> xclassify m = XOther -> is_ok (parse_example fexists l) = false.
+Proof. intros l m I U. exact (example_rule_invalid_item fexists l m I (example_unknown_invalid fexists m U)). Qed.
 
 End C19.
 
@@ -168,15 +199,13 @@ Theorem C19_rule_edit_unknown_option : forall e p x, is_ident (mpath x) "script"
   is_ident (mpath x) "file" = false -> is_ok (edit_parse e (MList p [x])) = false.
 Proof. exact edit_rule_unknown_option. Qed.
 
-(* refutations of the full-strength statements (witnesses in Gen/AttrWitness.v) *)
-Theorem C19_never_panics_refuted : exists l, k_name l = true /\ parse_args ftrue fone Actor l = Panic.
-Proof. exact never_panics_refuted. Qed.
-Theorem C19_actor_accept_iff_valid_refuted : exists l, existsb k_leaf_item l = true /\ valid_actor ftrue fone l = false /\ is_ok (parse_args ftrue fone Actor l) = true.
-Proof. exact actor_accept_iff_valid_refuted. Qed.
-Theorem C19_family_accept_iff_valid_refuted : exists l, k_leaf l = true /\ valid_family ftrue fone l = false /\ is_ok (parse_args ftrue fone Family l) = true.
-Proof. exact family_accept_iff_valid_refuted. Qed.
-Theorem C19_example_accept_iff_valid_refuted : exists l, k_example l = true /\ valid_example ftrue l = false /\ is_ok (parse_example ftrue l) = true.
-Proof. exact example_accept_iff_valid_refuted. Qed.
+(* former finding edit-empty-list: an empty list is rejected wherever the edit grammar reads a list *)
+Theorem C19_rule_edit_empty_list : forall e p,
+  is_ok (edit_parse e (MList p [])) = false /\ is_ok (edit_parse_family e (MList p [])) = false
+  /\ (forall f, is_ok (parse_sol e (MList p []) f) = false)
+  /\ (forall os f, is_ok (nested_idents os (MList p []) f) = false)
+  /\ is_ok (get_file_list (MList p [])) = false.
+Proof. exact edit_rule_empty_list. Qed.
 
 Print Assumptions C19_actor_accept_iff_valid.
 Print Assumptions C19_family_accept_iff_valid.
@@ -213,7 +242,12 @@ Print Assumptions C19_rule_family_file_marker_needs_path.
 Print Assumptions C19_rule_edit_nested_file.
 Print Assumptions C19_rule_edit_nested_file_in_part.
 Print Assumptions C19_rule_edit_unknown_option.
-Print Assumptions C19_never_panics_refuted.
-Print Assumptions C19_actor_accept_iff_valid_refuted.
-Print Assumptions C19_family_accept_iff_valid_refuted.
-Print Assumptions C19_example_accept_iff_valid_refuted.
+Print Assumptions C19_example_invalid_gets_diagnostic.
+Print Assumptions C19_rule_name_must_be_identifier.
+Print Assumptions C19_rule_first_name_must_be_identifier.
+Print Assumptions C19_rule_Debug_word_only.
+Print Assumptions C19_rule_filter_names_words_only.
+Print Assumptions C19_rule_lock_word_only.
+Print Assumptions C19_rule_example_invalid_option.
+Print Assumptions C19_rule_example_unknown_option.
+Print Assumptions C19_rule_edit_empty_list.
